@@ -303,6 +303,32 @@ pub fn plane_c2(seed: u64, p: u64) -> Plane {
     Plane { family: "C2-hsl-ties", label: format!("C2(p={})", p), back, src, lo, co, w: 256, h: 256 }
 }
 
+/// [E] one side grey (r == g == b), the other an arbitrary colour: the HSL helpers take special
+/// paths for colours without saturation (all 256 grey values occur in every plane)
+pub fn plane_e(seed: u64, p: u64) -> Plane {
+    let mut rng = Rng::derive(seed, "E", p);
+    let mut back = Vec::with_capacity(65536);
+    let mut src = Vec::with_capacity(65536);
+    let opaque = p % 2 == 0;
+    for i in 0..65536u32 {
+        let v = (i & 255) as u8;
+        let grey = [v, v, v, if opaque { 255 } else { rng.u8() | 1 }];
+        let mut other = unpack(rng.u32());
+        if opaque {
+            other[3] = 255;
+        }
+        if (i >> 8) % 2 == 0 {
+            back.push(pack(other));
+            src.push(pack(grey));
+        } else {
+            back.push(pack(grey));
+            src.push(pack(other));
+        }
+    }
+    let (lo, co) = if p % 4 < 2 { (255, 255) } else { (rng.opacity(), rng.opacity()) };
+    Plane { family: "E-hsl-grey", label: format!("E(p={})", p), back, src, lo, co, w: 256, h: 256 }
+}
+
 /// [D] uniform / skewed random full-domain samples
 pub fn plane_d(seed: u64, p: u64) -> Plane {
     let mut rng = Rng::derive(seed, "D", p);
@@ -385,6 +411,7 @@ pub enum Job {
     C { p: u64, op: u8 },
     C2 { p: u64 },
     D { p: u64 },
+    E { p: u64 },
     Z { p: u64 },
 }
 
@@ -433,6 +460,9 @@ pub fn schedule(tier: Tier, seed: u64) -> Vec<Job> {
     for p in 0..tier.pick(30, 1600) {
         jobs.push(Job::D { p });
     }
+    for p in 0..tier.pick(64, 4000) {
+        jobs.push(Job::E { p });
+    }
     for p in 0..tier.pick(24, 240) {
         jobs.push(Job::Z { p });
     }
@@ -446,6 +476,7 @@ pub fn job_plane(job: &Job, seed: u64) -> (Plane, &'static [u16]) {
         Job::C { p, op } => (plane_c(*p, *op), &HSL_PLUS_NORMAL),
         Job::C2 { p } => (plane_c2(seed, *p), &HSL_PLUS_NORMAL),
         Job::D { p } => (plane_d(seed, *p), &ALL_MODES),
+        Job::E { p } => (plane_e(seed, *p), &HSL_PLUS_NORMAL),
         Job::Z { p } => (plane_z(seed, *p), &ALL_MODES),
     }
 }
